@@ -70,6 +70,8 @@ def short(q):
 
 def check(run):
     # distinct outputs are written through distinct scratch files: scratch name = final name + .part (R15.1/R15.2 imported)
+    from .. import derived as _derived
+    _derived.report(run, "R20.6", ["CDNS::Writer<std::basic_string<char>>", "CDNS::Writer<int>", "CDNS::CdnsEncoder", "CDNS::CborOutputWriter", "CDNS::GzipCborOutputWriter", "CDNS::XzCborOutputWriter", "CDNS::CdnsExporter"])
     from . import C15 as _C15, C06 as _C06
     _C15.check_names(_C06._Renamed(run, {"R15.1": "R20.5", "R15.2": "R20.5"}), "R15.1", "R15.2", only_names=True)
     facts = run.facts
